@@ -4,8 +4,9 @@ import Swat4.Model.Store
 
 Each `qstep` is one storage command as the go-redis hook sees it: a `MULTI…EXEC` batch
 (`exec`), a `ZRANGEBYSCORE` (`zrange`).  `instances.Add/Remove/Clear`, `probes.enqueue`,
-`probes.PopMany` (rounds of `ZRANGEBYSCORE −inf..now LIMIT 0 k` + one batch
-`ZREM+HMGET+HDEL`).
+`probes.PopMany` (rounds of `ZRANGEBYSCORE −inf..now LIMIT 0 k WITHSCORES` + one batch
+`ZREM+HMGET+HDEL`; every fetched item keeps the score it was ranged with, and the items of all rounds are
+stably sorted by that score before the call returns).
 -/
 namespace Swat4
 open Std
@@ -27,8 +28,10 @@ inductive QResult where
 inductive QPC where
   | start
   | clearExec (ids : List Nat)
-  | popRange (got : List Probe) (expired : Nat)
-  | popExec (got : List Probe) (expired : Nat) (ids : List Nat)
+  /-- `got`: the unexpired items of the rounds so far, in fetch order, each with its queue score (`qItem.readyAt`) -/
+  | popRange (got : List (Probe × Int)) (expired : Nat)
+  /-- `ids` / `scores`: members and scores of the round's `ZRANGEBYSCORE … WITHSCORES` reply, position by position -/
+  | popExec (got : List (Probe × Int)) (expired : Nat) (ids : List Nat) (scores : List Int)
   | done (r : QResult)
   deriving Repr, Inhabited
 
@@ -41,6 +44,28 @@ def zrangeUpTo (m : ExtTreeMap Nat Int) (hi : Option Int) (limit : Option Nat) :
     lo ++ x :: rest) []
   let ids := sorted.map (·.1)
   match limit with | none => ids | some n => ids.take n
+
+/-- `ZRANGEBYSCORE key −inf hi [LIMIT 0 n] WITHSCORES`: the same selection in the same order as `zrangeUpTo`, each member
+with its score -/
+def zrangeUpToS (m : ExtTreeMap Nat Int) (hi : Option Int) (limit : Option Nat) : List (Nat × Int) :=
+  let sel := m.toList.filter fun kv => match hi with | none => true | some h => kv.2 ≤ h
+  let sorted := sel.foldr (fun x acc =>
+    let (lo, rest) := acc.span fun y => y.2 < x.2 ∨ (y.2 = x.2 ∧ y.1 < x.1)
+    lo ++ x :: rest) []
+  match limit with | none => sorted | some n => sorted.take n
+
+/-- insertion step of `sortByScore`: `x` goes before the first element whose key is not smaller -/
+def insertByScore {α : Type} (key : α → Int) (x : α) : List α → List α
+  | [] => [x]
+  | y :: ys => if key x ≤ key y then x :: y :: ys else y :: insertByScore key x ys
+
+/-- stable sort by an integer key (`sort.SliceStable` with `less = key i < key j`): elements with equal keys keep
+their relative order -/
+def sortByScore {α : Type} (key : α → Int) (l : List α) : List α := l.foldr (insertByScore key) []
+
+/-- what `PopMany` returns for the items `got` of all rounds (fetch order, with scores): stably sorted by score,
+scores dropped.  Ties keep fetch order: round by round, and within a round the order of the `ZRANGEBYSCORE` reply -/
+def finishBatch (got : List (Probe × Int)) : List Probe := (sortByScore (·.2) got).map (·.1)
 
 /-- first command of a call, or `done` at once when the call issues no command -/
 def QOp.begin (op : QOp) : QPC :=
@@ -65,19 +90,20 @@ def qstep (st : RStore) (clock : Int) (fresh : Nat) (op : QOp) (pc : QPC) : RSto
     (st.enqueueBatch fresh p before ready, .done .unit, true, "exec:ok")
   | .popRange got expired, .popMany n =>
     let want := (n - got.length).toNat
-    let ids := zrangeUpTo st.pQueue (some clock) (some want)
-    if ids.isEmpty then (st, .done (.probes got expired), false, "zrange:ok")
-    else (st, .popExec got expired ids, false, "zrange:ok")
-  | .popExec got expired ids, .popMany n =>
+    let ready := zrangeUpToS st.pQueue (some clock) (some want)
+    if ready.isEmpty then (st, .done (.probes (finishBatch got) expired), false, "zrange:ok")
+    else (st, .popExec got expired (ready.map (·.1)) (ready.map (·.2)), false, "zrange:ok")
+  | .popExec got expired ids scores, .popMany n =>
     let (st', vals) := st.popBatch ids
-    let items := vals.filterMap id
-    if items.isEmpty then (st', .done (.probes got expired), false, "exec:ok")
+    -- `result.Val()[i]` (nil skipped) with `ready[i].Score`
+    let items := (vals.zip scores).filterMap fun vs => vs.1.map fun pe => (pe, vs.2)
+    if items.isEmpty then (st', .done (.probes (finishBatch got) expired), false, "exec:ok")
     else
-      let fresh' := items.filter fun pe => !(match pe.2 with | none => false | some e => decide (e < clock))
+      let fresh' := items.filter fun it => !(match it.1.2 with | none => false | some e => decide (e < clock))
       let exp := items.length - fresh'.length
-      let got' := got ++ fresh'.map (·.1)
+      let got' := got ++ fresh'.map fun it => (it.1.1, it.2)
       if got'.length < n.toNat then (st', .popRange got' (expired + exp), false, "exec:ok")
-      else (st', .done (.probes got' (expired + exp)), false, "exec:ok")
+      else (st', .done (.probes (finishBatch got') (expired + exp)), false, "exec:ok")
   | pc, _ => (st, pc, false, "none")
 
 def QPC.live : QPC → Bool
